@@ -4,6 +4,9 @@ package main
 
 import (
 	"fmt"
+	"os"
+	"strconv"
+	"strings"
 
 	"golang.org/x/tools/go/ssa"
 )
@@ -17,6 +20,18 @@ func argStr(in *Interp, v Value, what string) string {
 	}
 	return s
 }
+
+var fixedChoices = func() map[string]uint64 {
+	m := map[string]uint64{}
+	for _, kv := range strings.Split(os.Getenv("VX_FIX"), ",") {
+		k, v, ok := strings.Cut(kv, "=")
+		if ok {
+			n, _ := strconv.ParseUint(v, 10, 64)
+			m[k] = n
+		}
+	}
+	return m
+}()
 
 func registerVX() {
 	reg := func(name string, f intrinsicFn) { intrinsics[vxPkg+"."+name] = f }
@@ -62,6 +77,10 @@ func registerVX() {
 		}
 		v := in.p.NewVar(name, 64)
 		in.p.Assume(in.f.Cmp(OpUlt, v, mkConst(uint64(n), 64)))
+		if fx, ok := fixedChoices[name]; ok {
+			// debugging aid: VX_FIX=name=value,... pins a choice
+			in.p.Assume(in.f.Eq(v, mkConst(fx, 64)))
+		}
 		k := in.p.Concretize(v)
 		return mkConst(k, 64)
 	})
@@ -120,6 +139,9 @@ func registerVX() {
 	// LazyObject(maxKeys): an arbitrary map[string]any (see lazy.go)
 	reg("LazyObject", func(in *Interp, c *frame, fn *ssa.Function, a []Value) Value {
 		return in.newLazyMap(0, int(in.concInt(a[0])))
+	})
+	reg("LazyTypeMismatches", func(in *Interp, c *frame, fn *ssa.Function, a []Value) Value {
+		return mkConst(uint64(in.lazyMismatches), 64)
 	})
 	reg("LazyAny", func(in *Interp, c *frame, fn *ssa.Function, a []Value) Value {
 		return in.newLazyAny(0, int(in.concInt(a[0])))
